@@ -294,61 +294,7 @@ func C13(c *Ctx) {
 	}
 
 	// ---- R13.4
-	if fl := c.fn("R13.4", "internal/ledger.(*SimpleLedger).FlushDirtyData"); fl != nil {
-		isAdd := func(in ssa.Instruction) bool {
-			call, ok := in.(ssa.CallInstruction)
-			return ok && strings.HasSuffix(core.CalleeName(call), "AccountCache).add")
-		}
-		rs := core.Reach([]core.Point{core.EntryOf(fl)}, isAdd, nil)
-		bad := false
-		for _, ret := range core.Returns(fl) {
-			if rs.Has(ret) {
-				bad = true
-			}
-		}
-		r.Check(!bad && len(sites(fl, isAdd)) > 0, "R13.4", "FlushDirtyData: dirty accounts enter the cache", c.P.Pos(fl.Pos()), "accountCache.add on every path", "a flushed block's accounts are not added to the account cache on some path: later reads serve the stale cached value")
-		// the argument is the dirty account map that is returned
-		for _, in := range sites(fl, isAdd) {
-			call := in.(ssa.CallInstruction)
-			same := false
-			for _, ret := range core.Returns(fl) {
-				if sameValue(ret.Results[0], call.Common().Args[1]) {
-					same = true
-				}
-			}
-			r.Check(same, "R13.4", "FlushDirtyData: cache receives the returned dirty set", c.P.Pos(in.Pos()), "accountCache.add(dirtyAccounts) with the map that is committed", "the cache is filled from a different account set than the one that is committed")
-		}
-	}
-	if ad := c.fn("R13.4", "internal/ledger.(*AccountCache).add"); ad != nil {
-		n := 0
-		for _, cb := range ad.AnonFuncs {
-			isAdd := func(in ssa.Instruction) bool {
-				call, ok := in.(ssa.CallInstruction)
-				return ok && core.CalleeName(call) == "(*github.com/hashicorp/golang-lru.Cache).Add"
-			}
-			if len(sites(cb, isAdd)) == 0 {
-				continue
-			}
-			n++
-			rs := core.Reach([]core.Point{core.EntryOf(cb)}, isAdd, nil)
-			skipped := false
-			for _, ret := range core.Returns(cb) {
-				if rs.Has(ret) {
-					skipped = true
-				}
-			}
-			r.Check(!skipped, "R13.4", "AccountCache.add: every dirty key enters the state cache", c.P.Pos(cb.Pos()), "the Range callback adds the key on every path (deleted keys as nil tombstones)",
-				"some dirty keys are not written to the state cache at flush: until the commit reaches the database, a read falls through to the stale database value")
-		}
-		r.Floor("R13.4", "state-cache fill callbacks", n, 1)
-	}
-	if rv := c.fn("R13.4", "internal/ledger.(createObjectChange).revert"); rv != nil {
-		ok := len(sites(rv, func(in ssa.Instruction) bool {
-			call, ok := in.(ssa.CallInstruction)
-			return ok && strings.HasSuffix(core.CalleeName(call), "AccountCache).rmAccount")
-		})) > 0
-		r.Check(ok, "R13.4", "createObjectChange.revert removes the cached account", c.P.Pos(rv.Pos()), "rmAccount called", "reverting an account creation leaves its record in the account cache")
-	}
+	c.cacheFill("R13.4")
 
 	// ---- R13.5
 	if rts := c.fn("R13.5", "internal/ledger.(*SimpleLedger).RevertToSnapshot"); rts != nil {
@@ -565,4 +511,65 @@ func (c *Ctx) c13UndoCaches() {
 		}
 	}
 	r.Floor("R13.7", "cache removals on the undo path", n, 1)
+}
+
+// cacheFill: the write-through account cache receives what the block wrote (C13 R13.4, shared with C10 R10.8).
+func (c *Ctx) cacheFill(rule string) {
+	r := c.R
+	if fl := c.fn(rule, "internal/ledger.(*SimpleLedger).FlushDirtyData"); fl != nil {
+		isAdd := func(in ssa.Instruction) bool {
+			call, ok := in.(ssa.CallInstruction)
+			return ok && strings.HasSuffix(core.CalleeName(call), "AccountCache).add")
+		}
+		rs := core.Reach([]core.Point{core.EntryOf(fl)}, isAdd, nil)
+		bad := false
+		for _, ret := range core.Returns(fl) {
+			if rs.Has(ret) {
+				bad = true
+			}
+		}
+		r.Check(!bad && len(sites(fl, isAdd)) > 0, rule, "FlushDirtyData: dirty accounts enter the cache", c.P.Pos(fl.Pos()), "accountCache.add on every path", "a flushed block's accounts are not added to the account cache on some path: later reads serve the stale cached value")
+		// the argument is the dirty account map that is returned
+		for _, in := range sites(fl, isAdd) {
+			call := in.(ssa.CallInstruction)
+			same := false
+			for _, ret := range core.Returns(fl) {
+				if sameValue(ret.Results[0], call.Common().Args[1]) {
+					same = true
+				}
+			}
+			r.Check(same, rule, "FlushDirtyData: cache receives the returned dirty set", c.P.Pos(in.Pos()), "accountCache.add(dirtyAccounts) with the map that is committed", "the cache is filled from a different account set than the one that is committed")
+		}
+	}
+	if ad := c.fn(rule, "internal/ledger.(*AccountCache).add"); ad != nil {
+		n := 0
+		for _, cb := range ad.AnonFuncs {
+			isAdd := func(in ssa.Instruction) bool {
+				call, ok := in.(ssa.CallInstruction)
+				return ok && core.CalleeName(call) == "(*github.com/hashicorp/golang-lru.Cache).Add"
+			}
+			if len(sites(cb, isAdd)) == 0 {
+				continue
+			}
+			n++
+			rs := core.Reach([]core.Point{core.EntryOf(cb)}, isAdd, nil)
+			skipped := false
+			for _, ret := range core.Returns(cb) {
+				if rs.Has(ret) {
+					skipped = true
+				}
+			}
+			r.Check(!skipped, rule, "AccountCache.add: every dirty key enters the state cache", c.P.Pos(cb.Pos()), "the Range callback adds the key on every path (deleted keys as nil tombstones)",
+				"some dirty keys are not written to the state cache at flush: until the commit reaches the database, a read falls through to the stale database value")
+		}
+		r.Floor(rule, "state-cache fill callbacks", n, 1)
+	}
+	if rv := c.fn(rule, "internal/ledger.(createObjectChange).revert"); rv != nil {
+		ok := len(sites(rv, func(in ssa.Instruction) bool {
+			call, ok := in.(ssa.CallInstruction)
+			return ok && strings.HasSuffix(core.CalleeName(call), "AccountCache).rmAccount")
+		})) > 0
+		r.Check(ok, rule, "createObjectChange.revert removes the cached account", c.P.Pos(rv.Pos()), "rmAccount called", "reverting an account creation leaves its record in the account cache")
+	}
+
 }
